@@ -43,8 +43,24 @@ theorem asciiLower_fixed_iff (t : Str) :
 
 /-! ### the linter -/
 
+/-- a text is lower-case exactly when no character is an ASCII capital or one of the listed
+    non-ASCII characters that `char::to_lowercase` changes -/
+theorem isLowerText_iff (t : Str) :
+    isLowerText t = true ↔ ∀ c ∈ t, ¬ (65 ≤ c.toNat ∧ c.toNat ≤ 90) ∧
+      ∀ r ∈ notLowerRanges, ¬ (r.1 ≤ c.toNat ∧ c.toNat ≤ r.2) := by
+  unfold isLowerText lowerFixedChar
+  simp only [List.all_eq_true, Bool.and_eq_true, beq_iff_eq, Bool.not_eq_true', List.any_eq_false,
+    decide_eq_true_eq, Bool.decide_and, Bool.decide_eq_true]
+  constructor
+  · intro h c hc
+    obtain ⟨h1, h2⟩ := h c hc
+    exact ⟨(asciiLowerChar_fixed_iff c).1 h1, fun r hr hh => h2 r hr (by simpa using hh)⟩
+  · intro h c hc
+    obtain ⟨h1, h2⟩ := h c hc
+    exact ⟨(asciiLowerChar_fixed_iff c).2 h1, fun r hr hh => h2 r hr (by simpa using hh)⟩
+
 theorem isLowerCase_iff (o : Option Str) :
-    isLowerCase o = true ↔ ∀ t, o = some t → asciiLower t = t := by
+    isLowerCase o = true ↔ ∀ t, o = some t → isLowerText t = true := by
   cases o with
   | none => simp [isLowerCase]
   | some t => simp [isLowerCase]
